@@ -743,7 +743,15 @@ def _stack_axis(items, axis):
         def rd(j):
             e = items[j]
             o = list(idx)
-            o[axis] = split_index(sym.sub(fl, offs[j]), e.axes[axis])
+            local = sym.sub(fl, offs[j])
+            ext_j = e.extent(axis)
+            if not (is_pyint(local) and is_pyint(ext_j)):
+                inr = And_(sym.le(0, local), sym.lt(local, ext_j))
+                if not cur().is_valid(zb(inr) if not isinstance(inr, bool) else inr):
+                    # outside its block this reader's value is discarded by the enclosing ite: read a clamped index so
+                    # that the index facts of the block apply
+                    local = ite(inr, local, 0)
+            o[axis] = split_index(local, e.axes[axis])
             tgt = [a if jj != axis else e.axes[axis] for jj, a in enumerate(items[0].axes)]
             return sym.cast(_conv_read(e, tuple(o), tgt, snaps[j])(), k)
         r = rd(len(items) - 1)
@@ -1814,3 +1822,28 @@ def last_axis_series(a, lead):
     f = a.snapshot_fn()
     ax = a.axes[-1]
     return series_term(lambda t: f(tuple(lead) + (split_index(t, ax),)), a.extent(a.ndim - 1))
+
+
+def searchsorted(a, v, side="left"):
+    """np.searchsorted on an ascending 1-D array: left: the first index i with a[i] >= v (all earlier entries < v);
+    right: the first index with a[i] > v.  The facts are what NumPy guarantees for a sorted array."""
+    a = _vec(a)
+    c = cur()
+    n = a.extent(0)
+    f = a.snapshot_fn()
+    ax = a.axes[0]
+
+    def at(m):
+        return sym.toF(f((split_index(m, ax),)))
+    v = sym.toF(v)
+    i = c.fresh_int("ss")
+    c.fact(z3.And(i >= 0, i <= zi(n)))
+    if side == "left":
+        add_qfact(n, lambda m: And_(Implies_(zi(m) < i, at(m).v < v.v), Implies_(zi(m) >= i, at(m).v >= v.v)), "searchsorted.left")
+    elif side == "right":
+        add_qfact(n, lambda m: And_(Implies_(zi(m) < i, at(m).v <= v.v), Implies_(zi(m) >= i, at(m).v > v.v)), "searchsorted.right")
+    else:
+        raise Unsupported("searchsorted side")
+    ground(i)
+    ground(simp(i - 1))
+    return i
